@@ -22,6 +22,9 @@ pub struct ExchangeOracle {
     blinded_seen: BTreeSet<[u8; 32]>,
     /// input -> the library's own unblinded input point
     input_points: BTreeMap<Vec<u8>, [u8; 32]>,
+    /// the clients' output buffer, reused from request to request (never re-zeroed), as an
+    /// application that keeps one result buffer would
+    out_buf: [u8; 32],
 }
 
 impl COracle for ExchangeOracle {
@@ -47,8 +50,9 @@ impl COracle for ExchangeOracle {
             ctx.stats.probe("honest_proofs_verified");
         }
         let un = pp::Client::unblind(&e.output, x.r);
-        let mut out = [0u8; 32];
-        pp::Client::finalize(x.input, x.md, &un, &mut out);
+        // finalise into the REUSED buffer (it still holds the previous request's output)
+        pp::Client::finalize(x.input, x.md, &un, &mut self.out_buf);
+        let out = self.out_buf;
         if !self.check_c12 {
             return Ok(());
         }
